@@ -1201,8 +1201,10 @@ class _Encoder:
             _check_chars(v, what)
             tag = "Content" if self.xflag("legacy_content", 0.5) else "ContentId"
             inner = self.contentid_inner(v, what, L)
-            if tag == "Content" and inner == "<null></null>":
-                inner = "<url></url>"     # <Content><null> would read back as Content None
+            if tag == "Content" and inner == "<null></null>" and name not in (self.opts.get("contentid_declared_names") or ()):
+                # <Content><null> would read back as Content None - unless the reader knows from its database that the
+                # property is a ContentId (this is how Studio itself writes an empty ContentId property)
+                inner = "<url></url>"
             return "<%s%s>%s</%s>" % (tag, na, inner, tag)
         if t == "Content":
             if not isinstance(v, dict) or v.get("k") not in ("None", "Uri", "Object"):
